@@ -23,7 +23,25 @@ from . import evidence, findings, pool
 VERIF = os.path.dirname(os.path.dirname(os.path.abspath(__file__)))
 
 
+def ensure_native():
+    """Build the arena-cache helper (performance only; see native/arenacache.c)."""
+    deps = os.path.join(VERIF, '.deps')
+    so = os.path.join(deps, 'arenacache.so')
+    src = os.path.join(VERIF, 'native', 'arenacache.c')
+    if os.path.exists(so) and os.path.getmtime(so) >= os.path.getmtime(src):
+        return True
+    os.makedirs(deps, exist_ok=True)
+    try:
+        subprocess.run(['clang', '-O2', '-shared', '-fPIC', '-o', so + '.tmp', src], check=True,
+                       stdout=subprocess.DEVNULL, stderr=subprocess.DEVNULL, timeout=120)
+        os.replace(so + '.tmp', so)
+        return True
+    except Exception:
+        return False
+
+
 def ensure_deps():
+    ensure_native()
     deps = os.path.join(VERIF, '.deps')
     if os.path.isdir(os.path.join(deps, 'icontract')):
         return True
